@@ -269,7 +269,7 @@ func (e *Exec) tryCases(t *Thread, cases []SelCase) (SelResult, bool) {
 	}
 	pick := ready[0]
 	if len(ready) > 1 {
-		pick = ready[Choose(len(ready), 0)]
+		pick = ready[Choose(len(ready), int(e.SelectCost))]
 	}
 	c := &cases[pick]
 	cs := c.ch
